@@ -366,7 +366,7 @@ def c_op_history(ctx, args):
     return history.operator_history(ctx, kind, n, seed, steps, be)
 
 
-CHECKS = {'op_history': c_op_history, 'state_arith': c_state_arith, 'reduce_large': c_reduce_large, 'torch_expr': c_torch_expr, 'expr': c_expr, 'trace': c_trace, 'qutip': c_qutip, 'linear': c_linear}
+CHECKS = {'ctor_fresh': __import__('props.C17', fromlist=['c_ctor_fresh']).c_ctor_fresh, 'op_history': c_op_history, 'state_arith': c_state_arith, 'reduce_large': c_reduce_large, 'torch_expr': c_torch_expr, 'expr': c_expr, 'trace': c_trace, 'qutip': c_qutip, 'linear': c_linear}
 
 COEFS = [1, -1, 2, -2, 3, 0.5, -0.5, 0.25, 1j, -1j, 2j, 1 + 1j, 1 - 1j, -1 + 2j, 0.5 + 0.5j, 3 - 1j, -0.75j]
 DIVS = [1, -1, 2, -2, 4, 1j, -1j, 2j, 1 + 1j, 1 - 1j, 0.5]
@@ -494,6 +494,12 @@ def run(ctx):
                     g = [a | b for a, b in zip(g, site(q2, rng.choice([1, 2, 3])))]
             terms.append([g, rng.choice([0, 0, 2, 1]), rng.choice([1.0, -1.0, 0.5, 2.0, -0.25])])
         do(ctx, 'reduce_large', [rng.choice(['np', 'torch']), n, terms, rng.choice(['reduce', 'add'])], nontrivial=('rl', it))
+    # the identity / zero polynomials are fresh objects at every call (they sit behind every 'polynomial + number'): build, update in place, build again, then add a number
+    for it in range(int(16 * B)):
+        be = ['np', 'torch'][it % 2]
+        do(ctx, 'ctor_fresh', [be, ['pauli_identity', 'pauli_zero'][(it // 2) % 2], rng.randint(1, 3), rng.randrange(10 ** 6), ['library', 'flip'][(it // 4) % 2]], nontrivial=('cfi', it))
+        n_ = rng.randint(1, 3)
+        do(ctx, 'expr', [n_, [4, [0, rleaf(rng, n_, ['poly'])], [0, [4, cfrac(rng.choice(COEFS))]]]], nontrivial=('cfn', it))
     # one long-lived operator object: uses interleaved with in-place updates
     for it in range(int(60 * B)):
         kinds, bes = ['pauli', 'mono', 'list', 'poly'], ['np', 'np', 'torch']
